@@ -12,7 +12,8 @@ DeduplicateDecorator) for every list of function declarations, every signature a
 suspend / completion in ANY order - the scheduler is an input).
 
 The property is FALSE of the code in three situations, all of them conflations of the default key, which the
-`_partial` theorems exclude by the decidable hypothesis `callOk` / `histOk` and the `_counterexample` theorems exhibit:
+`_partial` theorems exclude by the decidable PER-CALL hypothesis `callOk` / `histOk` (a condition on the arguments of
+each call, not on whole signatures: `C12_histOk_per_call`) and the `_counterexample` theorems exhibit:
 * `*args` together with keyword-only parameters (`C12_key_normal_counterexample`; recorded open finding);
 * positional-only parameters together with `**kwargs`: a keyword that has the name of a positional-only parameter
   is dropped from the key or taken for the parameter (`C12_key_posonly_counterexample`);
@@ -25,19 +26,23 @@ repaired in the code; the model has the repaired callback and `C12_completion_ke
 namespace AsynqModel.Dedup
 
 /-- **C12 as a whole** (partial): for all function declarations and EVERY history of operations whose calls and
-    dirty() go to functions on which the default key is faithful for the given arguments (`histOk`: the signature
-    does not combine `*args` with keyword-only parameters nor positional-only parameters with `**kwargs`, and no
-    positional argument of a `*args` + `**kwargs` function is a `(name, value)` 2-tuple), the observations of the
+    dirty() are ones on which the default key is faithful (`histOk`, a condition on each call: no overflow
+    positional when the signature combines `*args` with keyword-only parameters, no keyword named like a
+    positional-only parameter when it combines positional-only parameters with `**kwargs`, and no positional
+    argument of a `*args` + `**kwargs` function that is a `(name, value)` 2-tuple), the observations of the
     model are accepted by the observer `spec` - the same Boolean function the check evaluates on the observations
     of the real implementation.  `spec` says: a well-formed call returns either the in-flight, undirtied task of
     the same (function, thread, binding), or - if there is none, or if the body of that task may be executing - a
     brand-new task; a body starts once and receives what its creating call bound; a well-formed call / dirty never
-    raises; ill-formed calls create nothing; an ill-formed dirty() that raises changes nothing; nothing happens to
-    unknown or completed tasks. -/
+    raises; ill-formed calls create nothing and are answered, if with a task, with an in-flight task of the same
+    function and thread; an ill-formed dirty() that raises changes nothing; nothing happens to unknown or completed
+    tasks and nothing is resumed / suspended that never started; EVERY READER of a task (`await`) receives exactly
+    the outcome its body ended with; an asyncio-mode `.asynq()` is answered with a coroutine and touches nothing;
+    `len(tasks)` moves within bounds, and exactly (+1 / +0 / unchanged) wherever the observer knows the entry. -/
 theorem C12_spec_holds_partial (fns : List FnDecl) (ops : List Op)
     (h : histOk fns ops = true) :
     spec fns (run fns St.init ops) = true := by
-  obtain ⟨w', hw⟩ := watchRun_ok fns ops h St.init Watch.init (rel_init fns)
+  obtain ⟨w', hw⟩ := watchRun_ok fns ops h St.init Watch.init (rel_init fns) nodup_init
   have hw' : watchRun fns Watch.init 0 (run fns St.init ops) = .ok w' := hw
   simp [spec, hw']
 
@@ -49,7 +54,7 @@ theorem C12_spec_holds_sigs (fns : List FnDecl) (ops : List Op) (hsig : sigsOk f
 /-- **key normalisation** (partial): for two spellings that bind and on which the default key is faithful
     (`callOk`), the keys are equal iff they bind the same parameter values -/
 theorem C12_key_normal_partial (s : Sig) (a1 a2 : List Nat) (k1 k2 : List (Nat × Nat))
-    (h1 : callOk s a1 = true) (h2 : callOk s a2 = true)
+    (h1 : callOk s a1 k1 = true) (h2 : callOk s a2 k2 = true)
     (b1 b2 : Binding) (hb1 : s.bind a1 k1 = .ok b1) (hb2 : s.bind a2 k2 = .ok b2) :
     s.key a1 k1 = s.key a2 k2 ↔ b1 = b2 := by
   obtain ⟨t1, ht1⟩ := key_ok_of_bind s a1 k1 b1 hb1
@@ -109,6 +114,16 @@ theorem C12_spec_needs_histOk :
 theorem C12_valid_call_has_key (s : Sig) (args : List Nat) (kw : List (Nat × Nat)) (b : Binding)
     (hb : s.bind args kw = .ok b) : ∃ tup, s.key args kw = .ok tup :=
   key_ok_of_bind s args kw b hb
+
+/-! ### single branches of `step` (BY CONSTRUCTION of the model - not headline claims)
+
+`C12_completion_keeps_newer`, `C12_inflight_shared`, `C12_running_escape_private`, `C12_rerun_after_dirty` below each
+restate ONE branch of `step` for an arbitrary (not necessarily reachable) state: they are true by construction of the
+model and say nothing about the code by themselves; what ties those branches to the code is the correspondence (the
+generated histories reach every one of them: features shared-*, new-inside, re-created-same-spelling, dirty-removed-entry).
+They are listed under BY_CONSTRUCTION in harness/checks/c12.py.  The statements with content about whole histories
+are `C12_spec_holds_partial`, `C12_rerun_after_complete`, `C12_one_creation_per_period`, `C12_shared_while_calm`,
+`C12_shared_task_has_callers_key`, `C12_same_outcome_for_all_callers`. -/
 
 /-- the completion of any task leaves the entry of its key in place when that entry holds a DIFFERENT task
     (the task was dirtied and a newer one is in flight): for all states, tasks and outcomes -/
@@ -358,13 +373,71 @@ theorem C12_shared_while_calm (fns : List FnDecl) (ops0 ops : List Op) (c : Spel
   obtain ⟨_, task, ht, h1, _⟩ := C12_one_creation_per_period fns ops0 ops [] c k t0 hm hc hk
   exact h1 (hr task ht)
 
-/-- **a body starts at most once**: in every history, from every state, at most one `start t` operation is answered
-    with a binding (the generator of a task begins to run once; a second `start`, or one after completion, is
-    answered `bad`).  Together with `C12_one_creation_per_period`: per in-flight period of a key, the callers from
-    outside the running body share ONE task and that task's body runs at most ONCE. -/
+/-- (BY CONSTRUCTION: the guard `task.started` is written into `step (.start t)` because a Python generator starts
+    once - that is CPython / the scheduler, not tools.py; this theorem only restates the guard over histories.  What
+    the CHECK contributes to "the body runs once" is the observer clause `started-twice` judged on the real log and
+    `C12_one_creation_per_period` - one registered task per in-flight period.)
+    In every history, from every state, at most one `start t` operation is answered with a binding. -/
 theorem C12_body_starts_once (fns : List FnDecl) (s : St) (ops : List Op) (t : Nat) :
     bodyStarts t (run fns s ops) ≤ 1 :=
   starts_once fns t ops s
+
+/-- **all callers receive the same value or error**: in EVERY history, from every state, any two readers of one task
+    (callers that awaited it, `.value()`, completion subscribers - whichever spelling or thread their calls had) that
+    receive an outcome receive the SAME outcome - the one the body ended with; a task is never completed twice.
+    Together with `C12_one_creation_per_period` (the outside callers of a period all hold ONE task): they all
+    receive the same value or error. -/
+theorem C12_same_outcome_for_all_callers (fns : List FnDecl) (ops : List Op) :
+    ∀ (s : St) (t : Nat) (o1 o2 : Outc) (ob1 ob2 : Obs), ob1 ∈ run fns s ops → ob2 ∈ run fns s ops →
+      ob1.op = .await t → ob1.res = .got (some o1) → ob2.op = .await t → ob2.res = .got (some o2) → o1 = o2 := by
+  induction ops with
+  | nil => intro s t o1 o2 ob1 ob2 h1; simp [run] at h1
+  | cons op ops ih =>
+    intro s t o1 o2 ob1 ob2 h1 h2 ha1 hr1 ha2 hr2
+    have hrun : run fns s (op :: ops) = (observe fns s op).2 :: run fns (step fns s op).1 ops := rfl
+    rw [hrun, List.mem_cons] at h1 h2
+    -- a reader at the head of the history fixes what every later reader receives
+    have head : ∀ (ob ob' : Obs) (o o' : Outc), ob = (observe fns s op).2 → ob.op = .await t → ob.res = .got (some o) →
+        ob' ∈ run fns (step fns s op).1 ops → ob'.op = .await t → ob'.res = .got (some o') → o = o' := by
+      intro ob ob' o o' e ha hr hmem ha' hr'
+      subst e
+      have e' : op = .await t := ha
+      subst e'
+      obtain ⟨hout, hst⟩ := await_reads fns s t o hr
+      rw [hst] at hmem
+      have := awaits_after fns t o ops s hout ob' hmem ha'
+      rw [hr'] at this
+      injection this with this; injection this with this; exact this.symm
+    rcases h1 with e1 | h1 <;> rcases h2 with e2 | h2
+    · subst e1; subst e2
+      rw [hr1] at hr2
+      injection hr2 with hr2; injection hr2
+    · exact head ob1 ob2 o1 o2 e1 ha1 hr1 h2 ha2 hr2
+    · exact (head ob2 ob1 o2 o1 e2 ha2 hr2 h1 ha1 hr1).symm
+    · exact ih _ t o1 o2 ob1 ob2 h1 h2 ha1 hr1 ha2 hr2
+
+/-- (BY CONSTRUCTION of the model, as tools.py:355-356 is one line: in asyncio mode `.asynq()` returns
+    `self.fn.asyncio(...)` before a key is made.)  An asyncio-mode call is answered with a coroutine - never a task -
+    and leaves the table and every task alone: asyncio mode is NOT deduplicated (two such calls with one key are two
+    coroutines, each runs the body); the statement of C12 speaks of the task an `.asynq()` call returns and is not
+    claimed for asyncio mode.  Content: the correspondence (`aioCall` observations: the real answer is a coroutine,
+    a new object for every call, `len(tasks)` unchanged). -/
+theorem C12_asyncio_mode_unshared (fns : List FnDecl) (s : St) (c : Spell) :
+    step fns s (.aioCall c) = (s, .coro) := rfl
+
+/-- **the hypothesis is per call** (weaker than the former whole-signature `Sig.flat`): a history over a signature
+    that is OPEN to a conflation satisfies `histOk` as long as no call has the offending shape - `sigsOk` fails for
+    these declarations, `histOk` holds, and so `C12_spec_holds_partial` applies to them -/
+theorem C12_histOk_per_call :
+    (sigsOk (fnsOf poSig) = false ∧ poSig.flat = false ∧
+      histOk (fnsOf poSig) [.call (spOf [1] []), .call (spOf [1] [(5, 3)]), .dirty (spOf [1] [(5, 3)]), .call (spOf [2] [])] = true) ∧
+    (sigsOk (fnsOf cexSig) = false ∧ cexSig.flat = false ∧
+      histOk (fnsOf cexSig) [.call (spOf [1] []), .call (spOf [1] [(1, 2)]), .call (spOf [] [(0, 1)]), .dirty (spOf [1] [(1, 2)])] = true) := by
+  decide
+
+/-- a flat signature satisfies the per-call condition for every call -/
+theorem C12_flat_implies_per_call (s : Sig) (args : List Nat) (kw : List (Nat × Nat)) (h : s.flat = true) :
+    callFlat s args kw = true := callFlat_of_flat s args kw h
 
 
 /-! ## non-vacuity, and what the observer rejects -/
@@ -466,7 +539,8 @@ example :
     specClause cexFns [{ op := .start 7, res := .binding { params := [1], rest := [], extra := [] }, size := 0 }] = "unknown-task@start" ∧
     specClause cexFns [{ op := .call cexCall, res := .ret 0 true, size := 1 }, { op := .complete 0 (.val 0), res := .unit, size := 0 },
       { op := .complete 0 (.val 1), res := .unit, size := 0 }] = "completed-twice@complete" ∧
-    specClause cexFns [{ op := .call cexCall, res := .ret 0 true, size := 1 }, { op := .suspend 0, res := .bad, size := 1 }]
+    specClause cexFns [{ op := .call cexCall, res := .ret 0 true, size := 1 },
+      { op := .start 0, res := .binding { params := [1], rest := [], extra := [] }, size := 1 }, { op := .suspend 0, res := .bad, size := 1 }]
       = "schedule-result@suspend" ∧
     specClause cexFns [{ op := .call cexCall, res := .ret 0 true, size := 1 },
       { op := .start 0, res := .binding { params := [1], rest := [], extra := [] }, size := 1 },
@@ -580,7 +654,11 @@ theorem C12_inflight_survives_outside (fns : List FnDecl) (s : St) (c : Spell) (
   intro task ht hr
   simp [step, hd, hk, hkeep, ht, hr]
 
-/-- **one decorator object, several functions** (tools.py:420-431): however many functions the objects made by
+/-- (BY CONSTRUCTION of `DecoObj.apply`, which returns the object it was given and `.ofSig s`: this theorem and the
+    next say that the MODEL's decoration phase does not leak; that the CODE's does not is observed by the harness -
+    `kg` probes: the keygetter each real decorated function carries is applied to probe arguments and compared with the
+    keygetter the model's decoration phase gives that function, `KgProbe.agrees`; seed C12-8 fails there.)
+    One decorator object, several functions (tools.py:420-431): however many functions the objects made by
     `deduplicate()` / `deduplicate(keygetter=None)` are applied to, in whatever order and grouping, every application
     hands `DeduplicateDecorator` the keygetter derived from the signature of the function BEING decorated, and the
     objects are unchanged afterwards (nothing leaks from one application to the next) -/
@@ -601,7 +679,7 @@ theorem C12_keygetter_per_function (objs : List DecoObj) (apps : List (Nat × Si
     have ih' := ih (fun a ha => hi a (by simp [ha]))
     simp only [decorateAll, ho, DecoObj.apply, hcap, hset, ih', List.map_cons]
 
-/-- the model agrees with itself: with default objects the keygetters of the decoration phase are the `Sig.key` of
+/-- (BY CONSTRUCTION, see above) the model agrees with itself: with default objects the keygetters of the decoration phase are the `Sig.key` of
     each function's own signature, which is what `step` uses (`keyFnsAgree`, evaluated by the driver on every case) -/
 theorem C12_decoration_agrees_with_step (objs : List DecoObj) (fns : List FnDecl) (grp : List Nat)
     (hdef : allDefault objs = true) (hlen : grp.length = fns.length) (hi : ∀ g ∈ grp, g < objs.length) :
@@ -666,6 +744,116 @@ example :
       = "size@outside" ∧
     specClause cexFns [{ op := .call (thC 0 1), res := .ret 0 true, size := 1 }, { op := .outside 1, res := .unit, size := 1 },
       { op := .call (thC 0 1), res := .ret 1 true, size := 1 }] = "shared@call" := by
+  decide
+
+
+/-! ### the wrong observations listed by the SECOND independent audit (F4 / N11) are rejected -/
+
+def B1 : Binding := { params := [1], rest := [], extra := [] }
+
+/-- (a) "all callers receive the same value or error": a reader that receives an error after the body returned a
+    value, two readers that receive different values, a reader that receives something before the completion - all
+    rejected; the model's own run (value and failure) is accepted -/
+example :
+    specClause cexFns [{ op := .call cexCall, res := .ret 0 true, size := 1 }, { op := .complete 0 (.val 0), res := .unit, size := 0 },
+      { op := .await 0, res := .got (some (.err 77)), size := 0 }] = "received@await" ∧
+    specClause cexFns [{ op := .call cexCall, res := .ret 0 true, size := 1 }, { op := .complete 0 (.val 0), res := .unit, size := 0 },
+      { op := .await 0, res := .got (some (.val 0)), size := 0 }, { op := .await 0, res := .got (some (.val 1)), size := 0 }] = "received@await" ∧
+    specClause cexFns [{ op := .call cexCall, res := .ret 0 true, size := 1 }, { op := .await 0, res := .got (some (.val 0)), size := 1 }]
+      = "received@await" ∧
+    (run cexFns St.init [.call cexCall, .await 0, .complete 0 (.err 3), .await 0, .call cexCall, .await 0]).map (·.res) =
+      [.ret 0 true, .got none, .unit, .got (some (.err 3)), .ret 1 true, .got (some (.err 3))] ∧
+    spec cexFns (run cexFns St.init [.call cexCall, .await 0, .complete 0 (.err 3), .await 0, .call cexCall, .await 0]) = true := by
+  decide
+
+/-- (b) `len(tasks)` is exact wherever the observer knows the entry: a stored creation that does not grow the table, a
+    dirty() of one key that empties the whole table, a dirty() of a call with nothing in flight that removes an entry,
+    a private task that grows the table, a completion that leaves its dead entry behind (with and without a later
+    call) - all rejected -/
+example :
+    specClause cexFns [{ op := .call cexCall, res := .ret 0 true, size := 0 }] = "size@call" ∧
+    specClause cexFns [{ op := .call (thC 0 1), res := .ret 0 true, size := 1 }, { op := .call (thC 0 2), res := .ret 1 true, size := 2 },
+      { op := .dirty (thC 0 1), res := .unit, size := 0 }] = "size@dirty" ∧
+    specClause cexFns [{ op := .call (thC 0 1), res := .ret 0 true, size := 1 }, { op := .dirty (thC 0 2), res := .unit, size := 0 }]
+      = "size@dirty" ∧
+    specClause cexFns [{ op := .call cexCall, res := .ret 0 true, size := 1 }, { op := .start 0, res := .binding B1, size := 1 },
+      { op := .call cexCall, res := .ret 1 true, size := 2 }] = "size@call" ∧
+    specClause cexFns [{ op := .call cexCall, res := .ret 0 true, size := 1 }, { op := .complete 0 (.val 0), res := .unit, size := 1 }]
+      = "size@complete" ∧
+    specClause cexFns [{ op := .call cexCall, res := .ret 0 true, size := 1 }, { op := .complete 0 (.val 0), res := .unit, size := 1 },
+      { op := .call cexCall, res := .ret 0 false, size := 1 }] = "size@complete" ∧
+    -- the completion of a dirtied task removes nothing
+    specClause cexFns [{ op := .call cexCall, res := .ret 0 true, size := 1 }, { op := .dirty cexCall, res := .unit, size := 0 },
+      { op := .call cexCall, res := .ret 1 true, size := 1 }, { op := .complete 0 (.val 0), res := .unit, size := 0 }] = "size@complete" := by
+  decide
+
+/-- (c) an ill-formed call answered with an existing task of ANOTHER key / thread is rejected; the model answers the
+    ill-formed `f(1, 2)` with TypeError when nothing is stored under the key `(1, 2)` -/
+example :
+    specClause cexFns [{ op := .call (thC 3 9), res := .ret 0 true, size := 1 }, { op := .call oddDirty, res := .ret 0 false, size := 1 }]
+      = "invalid-call-shared@call" ∧
+    (run cexFns St.init [.call cexCall, .call oddDirty]).map (·.res) = [.ret 0 true, .typeError] := by
+  decide
+
+/-- (d) scheduling events of a task that never started are rejected (a dropped `start` line); the model answers `bad`.
+    NOT rejected (documented in ASSUMPTIONS of checks/c12.py): a log that lost a `suspend` line - the later duplicate
+    is taken for a call from inside the running body -/
+example :
+    specClause cexFns [{ op := .call cexCall, res := .ret 0 true, size := 1 }, { op := .resume 0 false, res := .unit, size := 1 },
+      { op := .call cexCall, res := .ret 1 true, size := 1 }] = "not-started@resume" ∧
+    specClause cexFns [{ op := .call cexCall, res := .ret 0 true, size := 1 }, { op := .suspend 0, res := .unit, size := 1 }]
+      = "not-started@suspend" ∧
+    (run cexFns St.init [.call cexCall, .resume 0 false, .call cexCall]).map (·.res) = [.ret 0 true, .bad, .ret 0 false] ∧
+    specClause cexFns [{ op := .call cexCall, res := .ret 0 true, size := 1 }, { op := .start 0, res := .binding B1, size := 1 },
+      { op := .call cexCall, res := .ret 1 true, size := 1 }, { op := .call cexCall, res := .ret 2 true, size := 1 }] = "ok" := by
+  decide
+
+/-- asyncio mode: an `.asynq()` answered with a task, or one that touches the table, is rejected; the model's run -
+    two asyncio-mode calls of a key that is in flight - is accepted, shares nothing and the next asynq-mode call still
+    gets task 0 -/
+example :
+    specClause cexFns [{ op := .call cexCall, res := .ret 0 true, size := 1 }, { op := .aioCall cexCall, res := .ret 0 false, size := 1 }]
+      = "asyncio-mode-result@aioCall" ∧
+    specClause cexFns [{ op := .call cexCall, res := .ret 0 true, size := 1 }, { op := .aioCall cexCall, res := .coro, size := 0 }]
+      = "size@aioCall" ∧
+    (run cexFns St.init [.call cexCall, .aioCall cexCall, .aioCall cexCall, .call cexCall]).map (·.res) =
+      [.ret 0 true, .coro, .coro, .ret 0 false] ∧
+    spec cexFns (run cexFns St.init [.call cexCall, .aioCall cexCall, .aioCall cexCall, .call cexCall]) = true := by
+  decide
+
+/-- `C12_same_outcome_for_all_callers` instantiated: two readers in a run -/
+example := C12_same_outcome_for_all_callers cexFns [.call cexCall, .complete 0 (.err 3), .await 0, .call cexCall, .await 0]
+  St.init 0 (.err 3) (.err 3) { op := .await 0, res := .got (some (.err 3)), size := 0 } { op := .await 0, res := .got (some (.err 3)), size := 1 }
+  (by decide) (by decide) rfl rfl rfl rfl
+
+/-- the per-call hypothesis at work: on the conflation-open signature `def g(p0, /, **extra)` a history WITHOUT a keyword
+    named p0 satisfies `histOk`, the model's run passes `spec` (by `C12_spec_holds_partial`), and a duplicate there is
+    still rejected as "shared" - the whole-signature hypothesis `Sig.flat` said nothing about this function -/
+example :
+    histOk (fnsOf poSig) [.call (spOf [1] [(5, 3)]), .call (spOf [1] [(5, 3)]), .dirty (spOf [1] []), .call (spOf [1] [])] = true ∧
+    spec (fnsOf poSig) (run (fnsOf poSig) St.init [.call (spOf [1] [(5, 3)]), .call (spOf [1] [(5, 3)]), .dirty (spOf [1] []), .call (spOf [1] [])]) = true :=
+  ⟨by decide, C12_spec_holds_partial _ _ (by decide)⟩
+
+/-- the decoration phase is OBSERVED: probes of the real keygetters (`KgProbe`) are explained by the keygetter of the
+    function's own signature and NOT by the keygetter a sticky decorator (seed C12-8) would hand to the second function:
+    `g(7)` with `def g(p2, p3=1, p4=2)` has the key `(7, 1, 2)`, the first function's keygetter answers `(7, 0)` -/
+example :
+    ({ fn := 1, args := [7], kw := [], ans := some [7, 1, 2] } : KgProbe).agrees (.ofSig sgB) = true ∧
+    ({ fn := 1, args := [7], kw := [], ans := some [7, 0] } : KgProbe).agrees (.ofSig sgB) = false ∧
+    ({ fn := 1, args := [7], kw := [], ans := some [7, 0] } : KgProbe).agrees (.ofSig sgA) = true ∧
+    ({ fn := 1, args := [], kw := [], ans := none } : KgProbe).agrees (.ofSig sgB) = true ∧
+    ({ fn := 0, args := [], kw := [(6, 1)], ans := some [pairTok 6 1] } : KgProbe).agrees (.ofSig pairSig) = true := by
+  decide
+
+/-- necessity of `calm` (hypothesis of the period theorems): a dirty() of the key, or the completion of `t0`, ends the
+    period - the entry is gone; and of "not executing" in `C12_shared_while_calm`: while the body of task 0 executes the
+    call is answered with a new private task -/
+example :
+    calm cexFns { tup := [.v 1], th := 0, fn := 0 } 0 [.dirty cexCall] = false ∧
+    mget (finalState cexFns St.init [.call cexCall, .dirty cexCall]).table { tup := [.v 1], th := 0, fn := 0 } = none ∧
+    calm cexFns { tup := [.v 1], th := 0, fn := 0 } 0 [.complete 0 (.val 0)] = false ∧
+    mget (finalState cexFns St.init [.call cexCall, .complete 0 (.val 0)]).table { tup := [.v 1], th := 0, fn := 0 } = none ∧
+    (step cexFns (finalState cexFns St.init [.call cexCall, .start 0]) (.call cexCall)).2 = .ret 1 true := by
   decide
 
 end AsynqModel.Dedup
